@@ -40,6 +40,21 @@ theorem write_nobudget (s : St) (w : Write) (h : s.crashed = false) (hb : s.budg
   | nil => rfl
   | cons w ws ih => simp [St.writes, ih]
 
+theorem write_setMem_comm (s : St) (w : Write) (m : Mem) : (s.write w).setMem m = (s.setMem m).write w := by
+  unfold St.write St.setMem
+  simp only
+  split
+  · rfl
+  · split <;> rfl
+
+theorem writes_setMem_comm (ws : List Write) : ∀ (s : St) (m : Mem), (s.writes ws).setMem m = (s.setMem m).writes ws := by
+  induction ws with
+  | nil => intro s m; rfl
+  | cons w ws ih =>
+    intro s m
+    simp only [St.writes]
+    rw [ih, write_setMem_comm]
+
 /-! ### outcome of a piece of code: alive with `P`, or dead on a disk satisfying `R` -/
 
 def Out (P : Disk → Mem → Prop) (R : Disk → Prop) (s : St) : Prop :=
@@ -221,7 +236,9 @@ theorem frozen_insertBlock (cont : St → Block → St) (hc : ∀ f, Frozen (fun
   simp only
   split
   · exact a
-  · have b1 := frozen_insertB b _ a.1
+  · rename_i v _
+    have a' : ((insertA s b).setMem { (insertA s b).mem with verified := v }).crashed = true := a.1
+    have b1 := frozen_insertB b _ a'
     split
     · rename_i f _
       have c1 := hc f _ b1.1
@@ -776,5 +793,37 @@ theorem insertAB_spec {T : Nat → Option Block} {s : St} {b y : Block} {c : Lis
     · intro t ht hnb
       show t ∈ (m0.pending.filter (fun t => !(b.txs.contains t)))
       simp [List.mem_filter, hnb]; exact ht
+
+
+/-! ### the verified cache in `insertBlock` -/
+
+theorem contains_lruAdd (l : List Nat) (k : Nat) : (lruAdd verifiedCap l k).contains k = true := by
+  simp [lruAdd, verifiedCap]
+
+/-- the state `insertBlock` continues with after a hit in the verified cache -/
+def touchVerified (s : St) (b : Block) : St := s.setMem { s.mem with verified := lruGet s.mem.verified b.hash }
+
+theorem insertBlock_hit (cont : St → Block → St) (s : St) (b : Block) (hv : s.mem.verified.contains b.hash = true) :
+    insertBlock cont s b =
+      match (insertB (insertA (touchVerified s b) b) b).mem.future b.hash with
+      | some f => (cont (insertB (insertA (touchVerified s b) b) b) f, .succ)
+      | none => (insertB (insertA (touchVerified s b) b) b, .succ) := by
+  unfold insertBlock
+  simp only
+  have hmem : (insertA s b).mem = s.mem := by simp [insertA]
+  have hc : saveStatesCache (insertA s b).mem.verified b = some (lruGet s.mem.verified b.hash) := by
+    rw [hmem]; unfold saveStatesCache; rw [if_pos hv]
+  rw [hc]
+  simp only
+  have e : (insertA s b).setMem { (insertA s b).mem with verified := lruGet s.mem.verified b.hash } =
+      insertA (touchVerified s b) b := by
+    unfold insertA touchVerified
+    rw [writes_mem, writes_setMem_comm]
+  rw [e]
+  rfl
+
+theorem touchVerified_inv {T : Nat → Option Block} {s : St} {b : Block} {c : List Block} (inv : Inv T s.disk s.mem c) :
+    Inv T (touchVerified s b).disk (touchVerified s b).mem c :=
+  ⟨inv.chain, inv.latest, inv.cache, inv.fut, inv.fromT⟩
 
 end Rangers.Proofs.ChainStore
